@@ -2,7 +2,7 @@
    correspondence cases (tools/props/c02.py). No proofs. *)
 From Coq Require Import List ZArith Bool Arith.
 From PV Require Import Base.Index Base.Perm Base.Sum Np.NpZ Np.Array Model.Sparse Model.Repr Model.Harness
-                       Model.C02Spec Model.C02Dense Model.C02Sparse Model.C02Modes Model.C02Kruskal Model.C02SpKernels Model.C02Absorb Model.C02Tenmat Model.C02SpMore Model.C02KruskalMore Model.C02Tucker.
+                       Model.C02Spec Model.C02Dense Model.C02Sparse Model.C02Modes Model.C02Kruskal Model.C02SpKernels Model.C02Absorb Model.C02Tenmat Model.C02SpMore Model.C02KruskalMore Model.C02Tucker Model.C02TuckerFull.
 Import ListNotations.
 
 Definition zsp_ttv := @spec_ttv Z 0%Z Z.add Z.mul.
@@ -109,3 +109,16 @@ Definition zsumw (K : ktensor Z) : Z := fold_right Z.add 0%Z (kweights K).
 Definition t_eqb (A B : ttensor Z) : bool := dense_eqb (tcore A) (tcore B) && list_eqb mat_eqb (tfactors A) (tfactors B).
 Definition zimpl_ttv_t := @impl_ttv_t Z 0%Z Z.add Z.mul.
 Definition zimpl_mttkrp_t := @impl_mttkrp_t Z 0%Z Z.add Z.mul.
+Definition zimpl_full_t := @impl_full_t Z 0%Z Z.add Z.mul.
+Definition zimpl_innerprod_t_dense := @impl_innerprod_t_dense Z 0%Z Z.add Z.mul.
+Definition zimpl_normsq_t := @impl_normsq_t Z 0%Z Z.add Z.mul.
+Definition zimpl_innerprod_tt := @impl_innerprod_tt Z 0%Z Z.add Z.mul.
+(* ktensor.innerprod(tensor | sptensor): res += weights[r] * other.ttv(columns r) over all modes, with the operand's own (proved) ttv model *)
+Definition zkcols (As : list (list (list Z))) (r : nat) : list (list Z) :=
+  map (fun A => map (fun x => mget 0%Z A x r) (seq 0 (length A))) As.
+Definition zimpl_innerprod_k_dense (K : ktensor Z) (X : dense Z) : Z :=
+  fold_left (fun acc r => (acc + nth r (kweights K) 0 * zden (zimpl_ttv_dense X (seq 0 (length (kfactors K))) (zkcols (kfactors K) r)) [])%Z)
+            (seq 0 (krank K)) 0%Z.
+Definition zimpl_innerprod_k_sp (K : ktensor Z) (S : sparse Z) : Z :=
+  fold_left (fun acc r => (acc + nth r (kweights K) 0 * zimpl_ttv_sp S (seq 0 (length (kfactors K))) (zkcols (kfactors K) r) [])%Z)
+            (seq 0 (krank K)) 0%Z.
